@@ -10,8 +10,12 @@ from vectorizers import preprocessing as P
 
 
 def key32(x):
-    """float32 value -> integer multiple of 2^-149 (exact)."""
-    return int(Fraction(float(x)) * (1 << 149))
+    """float32 value -> integer multiple of 2^-149 (exact); NaN/inf (0/0 on an empty corpus with a supplied
+    dictionary) -> 0, the convention of Model/K5_Float.v's [key]."""
+    x = float(x)
+    if x != x or x in (float("inf"), float("-inf")):
+        return 0
+    return int(Fraction(x) * (1 << 149))
 
 
 def tok(t):
